@@ -52,6 +52,10 @@ def gen_cases(ctx):
                                 kwargs={}, schedule=sched, demand=['N*', 'A', 'A'], label='%s:%s' % (kind, mode), kind=kind, k=k)
                     if rng.random() < 0.3:
                         base['library_warnings_are_errors'] = True
+                    if rng.random() < 0.25:
+                        base['unprintable_elements'] = True
+                    if rng.random() < 0.3:
+                        base['closable_source'] = True
                     if kind == 'src' and rng.random() < 0.5:
                         base['resume'] = rng.choice([1, 2, 4])      # a source that could go on after its exception (csv-reader like)
                     cases.append(base)
@@ -67,6 +71,13 @@ def gen_cases(ctx):
                         cases.append(dict(two, cfg=dict(cfg, nworkers=0), schedule=None, label='e+src:serial'))
                     if kind in ('e', 'src'):
                         cases.append(dict(base, cfg=dict(cfg, nworkers=0), schedule=None, label='%s:serial' % kind))
+    # every run has a function failure on an element that cannot be printed, in a worker and in-process (the stage has no business
+    # calling repr() on an element, least of all while it handles the function's exception)
+    for lab_ok in (lambda c: c['kind'] == 'e' and c['cfg']['nworkers'] > 0, lambda c: c['kind'] == 'e' and c['cfg']['nworkers'] == 0):
+        if not any(lab_ok(c) and c.get('unprintable_elements') for c in cases):
+            first = next((c for c in cases if lab_ok(c)), None)
+            if first is not None:
+                cases.append(dict(first, unprintable_elements=True))
     # corpus: the defect input of the pinned tree (DESIGN §3, D1)
     cases.insert(0, dict(cfg=dict(nworkers=2, extracache=2, skipNone=True, maxtasksperchild=None), n=6, tail=7,
                          table=[['u']] * 6, fkind='module', kwargs={}, schedule=None, demand=['N*', 'A'],
